@@ -224,7 +224,12 @@ def run(ctx, cell):
             # module files are read in text mode: universal newlines turn a lone CR into LF,
             # so "line" is ambiguous for CR-only files -- outside the claim
             ctx.assume(ch != "\r")
-        body = "def ok = 1;" + g + "def bad = undefined_name"
+        # (the module file may begin with layout: blank lines before the first token count too)
+        g0 = ctx.str("g0", 1 if cell["n"] else 0)
+        T.layout_ok(ctx, g0)
+        for ch in list(g0):
+            ctx.assume(ch != "\r")
+        body = g0 + "def ok = 1;" + g + "def bad = undefined_name"
         d = tempfile.mkdtemp(prefix="c20mod")
         try:
             with open(os.path.join(d, "c20mod.ckl"), "w", encoding="utf-8") as f:
@@ -242,7 +247,7 @@ def run(ctx, cell):
             ctx.fail("C20:module:unexpected-outcome-%s" % out.kind, lambda: str(out.exc or out.value))
             return out
         e = out.exc
-        exp = 1 + count_nl(list(g))
+        exp = 1 + count_nl(list(g0)) + count_nl(list(g))
         ctx.check(e.pos is not None and "c20mod" in str(e.pos.filename),
                   "C20:module:error-does-not-name-module", lambda: str(e.pos))
         if e.pos is not None:
